@@ -77,3 +77,52 @@ func VerifC09Diff(kind int, tmpl string) {
 		vrt.Cover("encoded")
 	}
 }
+
+// Pointer-receiver methods on fields of addressable and non-addressable structs, directly and
+// promoted through a struct embedded by value: v1 must call them exactly where the classic
+// package does.
+type zz09kPM struct{ X int8 }
+
+func (p *zz09kPM) MarshalJSON() ([]byte, error) { return []byte(`"called"`), nil }
+
+type zz09kPT struct{ Y int8 }
+
+func (p *zz09kPT) MarshalText() ([]byte, error) { return []byte("text"), nil }
+
+type zz09kInner struct {
+	F zz09kPM
+	T zz09kPT
+}
+type zz09kOuter struct {
+	zz09kInner
+	G zz09kPM
+}
+
+// VerifC09PointerMethods: the value sits at a solver-chosen position: 0 passed by value,
+// 1 by pointer, 2 map value, 3 slice element, 4 array element of an array passed by value,
+// 5 behind an interface, 6 field of a struct passed by value.
+func VerifC09PointerMethods() {
+	o := zz09kOuter{zz09kInner{zz09kPM{int8(vrt.Byte("x"))}, zz09kPT{2}}, zz09kPM{3}}
+	var v any
+	switch vrt.Choice("pos", 7) {
+	case 0:
+		v = o
+	case 1:
+		v = &o
+	case 2:
+		v = map[string]zz09kOuter{"k": o}
+	case 3:
+		v = []zz09kOuter{o}
+	case 4:
+		v = [1]zz09kOuter{o}
+	case 5:
+		v = []any{o}
+	default:
+		v = struct{ O zz09kOuter }{o}
+	}
+	b1, e1 := Marshal(v)
+	b2, e2 := stdjson.Marshal(v)
+	vrt.Assert("C09/ptrmethods/same-success", (e1 == nil) == (e2 == nil))
+	vrt.Assert("C09/ptrmethods/same-bytes", e1 != nil || e2 != nil || bytes.Equal(b1, b2))
+	vrt.Cover("compared")
+}
